@@ -31,26 +31,6 @@ func c01Answer(r *vfRand, name string, qt uint16) *dns.Msg {
 	}
 }
 
-func c01IPsOfResult(res *filtering.Result) (ips []netip.Addr) {
-	if res == nil {
-		return nil
-	}
-	for _, r := range res.Rules {
-		if r.IP != (netip.Addr{}) {
-			dup := false
-			for _, x := range ips {
-				if x == r.IP {
-					dup = true
-				}
-			}
-			if !dup {
-				ips = append(ips, r.IP)
-			}
-		}
-	}
-	return ips
-}
-
 // c01Monitor evaluates the property on one observation.
 func c01Monitor(c *plCfg, q *plQuery, o *plObs) (ok bool, msg string) {
 	host := strings.ToLower(strings.TrimSuffix(q.Name, "."))
@@ -76,7 +56,7 @@ func c01Monitor(c *plCfg, q *plQuery, o *plObs) (ok bool, msg string) {
 		if o.Res == nil {
 			return false, "blocked query has no response"
 		}
-		if ok, why := plIsSynthetic(c, q, o.Res, c01IPsOfResult(res)); !ok {
+		if ok, why := plIsSynthetic(c, q, o.Res, plIPsOfResult(res)); !ok {
 			return false, fmt.Sprintf("blocked query (%s, mode %s) answered with something else than the blocking-mode answer: %s", res.Reason, c.Mode, why)
 		}
 	}
@@ -114,6 +94,10 @@ func c01Monitor(c *plCfg, q *plQuery, o *plObs) (ok bool, msg string) {
 		if !reqBlocked || res.Reason != filtering.FilteredBlockList {
 			return false, fmt.Sprintf("%s is on a block list (plain rule, no exceptions anywhere) but was not blocked: calls=%v", host, o.Calls)
 		}
+	case 2:
+		if len(o.Calls) != 1 || res == nil || res.Reason != filtering.NotFilteredAllowList {
+			return false, fmt.Sprintf("%s is on the allow list (plain entry) but was not let through as allow-listed: calls=%v", host, o.Calls)
+		}
 	case -1:
 		if reqBlocked || len(o.Calls) != 1 {
 			return false, fmt.Sprintf("nothing concerns %s but it was not forwarded (calls=%v)", host, o.Calls)
@@ -137,7 +121,7 @@ func c01Classes(c *plCfg, q *plQuery, o *plObs) (cl []string) {
 				qc = "HTTPS"
 			}
 			cl = append(cl, "blocked-"+string(c.Mode)+"-"+qc)
-			if len(c01IPsOfResult(res)) > 0 {
+			if len(plIPsOfResult(res)) > 0 {
 				cl = append(cl, "hosts-rule-with-ip")
 			}
 		}
